@@ -1,5 +1,9 @@
+#[cfg(kepler_5_rrss_verif)]
+use crate::verif_seams::HashMap;
+#[cfg(not(kepler_5_rrss_verif))]
+use std::collections::HashMap;
 use std::{
-    collections::{BTreeMap, HashMap},
+    collections::BTreeMap,
     hash::Hash,
     sync::Arc,
 };
